@@ -884,7 +884,7 @@ func (p *Parser) ParseSwitchStatement() (*ast.SwitchStatement, error) {
 			if clause.Test == nil || o.Test == nil || clause.Test.Operator != o.Test.Operator {
 				continue
 			}
-			if clause.Test.Right.String() == o.Test.Right.String() {
+			if caseLabel(clause.Test.Right) == caseLabel(o.Test.Right) {
 				return nil, errors.WithStack(DuplicateCase(clause.Test.Meta))
 			}
 		}
@@ -946,6 +946,29 @@ func (p *Parser) ParseFallthroughStatement() (*ast.FallthroughStatement, error) 
 	stmt.Trailing = p.Trailing()
 
 	return stmt, nil
+}
+
+// caseLabel renders the test of a case clause without the comments attached to it,
+// so that `case "a":` and `case "a" /* comment */:` are recognized as the same label.
+func caseLabel(e ast.Expression) string {
+	switch t := e.(type) {
+	case *ast.String:
+		if t.LongString {
+			return "{" + t.Delimiter + `"` + t.Value + `"` + t.Delimiter + "}"
+		}
+		return `"` + t.Value + `"`
+	case *ast.Ident:
+		return t.Value
+	case *ast.GroupedExpression:
+		return "(" + caseLabel(t.Right) + ")"
+	case *ast.InfixExpression:
+		if t.Explicit {
+			return "(" + caseLabel(t.Left) + " " + t.Operator + " " + caseLabel(t.Right) + ")"
+		}
+		return "(" + caseLabel(t.Left) + " " + caseLabel(t.Right) + ")"
+	default:
+		return e.String()
+	}
 }
 
 func (p *Parser) ParseCaseStatement() (*ast.CaseStatement, error) {
